@@ -16,6 +16,7 @@
 import CxVerif.Proofs.Argon2Block
 import CxVerif.Proofs.Argon2Index
 import CxVerif.Proofs.Argon2Hash
+import CxVerif.Proofs.Argon2Segment
 namespace Cx.Props.C11
 open Cx Cx.Proofs.Argon2
 open Cx.Spec.Argon2 (Ty Block)
@@ -163,5 +164,95 @@ theorem fill_block_eq_G (prev ref next : Block) :
 theorem fill_block_xor_eq_G (prev ref next : Block) :
     Impl.Argon2.fill_block prev ref next true = Spec.Argon2.xorBlock (Spec.Argon2.G prev ref) next :=
   Proofs.Argon2.fill_block_xor_eq_G prev ref next
+
+/-! ### 6. address blocks, one loop iteration, the segment loop -/
+
+/-- data-independent addressing: when the code's `input_block` holds `Z || LE64(n) || ZERO(968)`
+    (`Z = LE64(r) || LE64(l) || LE64(sl) || LE64(m') || LE64(t) || LE64(y)`, RFC 9106 3.4.1.2), `next_addresses` returns
+    the RFC's `(n+1)`-th 1024-byte address value `G(ZERO, G(ZERO, Z || LE64(n+1) || ZERO(968)))` and leaves the
+    counter at `n + 1`; the u64 `+= 1` cannot overflow for n + 1 < 2^64 -/
+theorem next_addresses_eq_rfc (c : Spec.Argon2.Params) (r l sl n : Nat) (hn : n + 1 < 2 ^ 64) (address : Block) :
+    Impl.Argon2.next_addresses address (Spec.Argon2.addrInput c r l sl n) Impl.Argon2.Block.new =
+      some (Spec.Argon2.addrBlock c r l sl (n + 1), Spec.Argon2.addrInput c r l sl (n + 1)) :=
+  next_addresses_eq c r l sl n hn address
+
+/-- the six words the code writes into `input_block` (then counter word 0) are the RFC's byte string
+    `Z || LE64(i) || ZERO(968)` -/
+theorem input_block_eq_rfc (c : Spec.Argon2.Params) (r l sl i : Nat) :
+    Spec.Argon2.addrInput c r l sl i =
+      inputWords (UInt64.ofNat r) (UInt64.ofNat l) (UInt64.ofNat sl) (UInt64.ofNat (Spec.Argon2.mPrime c))
+        (UInt64.ofNat c.t) (UInt64.ofNat c.y.y) (UInt64.ofNat i) :=
+  addrInput_eq c r l sl i
+
+/-- ONE ITERATION of the `fill_segment` loop = RFC 9106 3.2 steps 5/6 for block `B[i][sl·segLen + k]`, for every
+    valid parameter set (p ≥ 1, 8p ≤ m < 2^32), every pass r, lane i < p, slice sl < 4, index k inside the segment
+    (k ≥ 2 in the first slice of the first pass), all three types and both versions, under the loop invariant
+    `SegInv` (memory contents, `curr_offset`, the `prev_offset` rule, address block = the `(⌊k/128⌋+1)`-th address
+    value unless a refresh is due, counter word) — and the invariant holds again for `k + 1`.  In particular:
+    the address block is refreshed exactly when `k mod 128 = 0`, J_1/J_2 are the low/high halves of the right word,
+    the reference lane/column are the RFC's, all block indices are in range, no u32/u64 operation overflows, and the
+    XOR-into-existing-block happens exactly for version ≠ 0x10 on passes > 0. -/
+theorem fill_segment_step_eq_rfc (c : Spec.Argon2.Params) (params : Impl.Argon2.Params) (hc : Corr params c)
+    (r i sl k idx : Nat) (hpos : Pos c r i sl k) (st : Impl.Argon2.SegState) (B : Spec.Argon2.Memory)
+    (inv : SegInv c r i sl k (Spec.Argon2.dataIndependent c.y r sl) st B) :
+    ∃ st', Impl.Argon2.fill_segment_body params ⟨r, i, sl, idx⟩ (Spec.Argon2.dataIndependent c.y r sl)
+        Impl.Argon2.Block.new st k = some st' ∧
+      SegInv c r i sl (k + 1) (Spec.Argon2.dataIndependent c.y r sl) st'
+        (Spec.Argon2.fillBlock c r sl i
+          (if Spec.Argon2.dataIndependent c.y r sl then Spec.Argon2.addrBlocks c r i sl else #[]) B k) :=
+  body_eq c params hc r i sl k idx hpos st B inv
+
+/-- THE WHOLE LOOP `for i in starting_index..segment_length` from any index `k` on = the RFC's steps for the blocks
+    `k … segLen−1` of the segment in order (by induction on the number of remaining iterations) -/
+theorem fill_segment_loop_eq_rfc (c : Spec.Argon2.Params) (params : Impl.Argon2.Params) (hc : Corr params c)
+    (r i sl idx : Nat) (hp : 1 ≤ c.p) (hm : 8 * c.p ≤ c.m) (hm2 : c.m < 2 ^ 32) (hi : i < c.p) (hsl : sl < 4)
+    (n k : Nat) (st : Impl.Argon2.SegState) (B : Spec.Argon2.Memory) (hkn : k + n = Spec.Argon2.segLen c)
+    (h0 : r = 0 ∧ sl = 0 → 2 ≤ k) (inv : SegInv c r i sl k (Spec.Argon2.dataIndependent c.y r sl) st B) :
+    ∃ st', Impl.Argon2.fill_segment_loop params ⟨r, i, sl, idx⟩ (Spec.Argon2.dataIndependent c.y r sl)
+        Impl.Argon2.Block.new (List.range' k n) st = some st' ∧
+      SegInv c r i sl (Spec.Argon2.segLen c) (Spec.Argon2.dataIndependent c.y r sl) st'
+        ((List.range' k n).foldl
+          (Spec.Argon2.fillBlock c r sl i
+            (if Spec.Argon2.dataIndependent c.y r sl then Spec.Argon2.addrBlocks c r i sl else #[])) B) :=
+  loop_eq c params hc r i sl idx hp hm hm2 hi hsl n k st B hkn h0 inv
+
+/-- the hypotheses of the step theorem are met by a concrete non-trivial position: m = 520, p = 1 (segment length
+    130), pass 1, lane 0, slice 2, index 128 (an address-block refresh index) -/
+example : Pos { y := .id, v := 0x13, t := 2, m := 520, p := 1, T := 32 } 1 0 2 128 :=
+  ⟨by decide, by decide, by decide, by decide, by decide, by decide, by simp⟩
+
+/-! ### 7. the assembled statement
+
+FULL STATEMENT (C11, model level) — NOT yet proved as one theorem:
+
+    theorem argon2_eq_rfc (c : Spec.Argon2.Params) (pwd salt key aad : Bytes)
+        (hv : Spec.Argon2.valid c pwd salt key aad = true) (params : Impl.Argon2.Params) (hc : Corr params c) :
+        Impl.Argon2.argon2_at params pwd salt key aad c.T = some (Spec.Argon2.argon2 c pwd salt key aad) ∧
+        Impl.Argon2.argon2 c.T params pwd salt key aad = some (Spec.Argon2.argon2 c pwd salt key aad)
+
+    (with `builder_geometry` / `builder_corr`: for `params` = what the builder chain returns for (y, v, t, m, p)).
+
+What is proved of it (all above, each for all inputs of its domain): H_0 (`H0_layout`), H' (`hprime_eq_rfc`,
+`hprime_block_init_eq_rfc`), the geometry and the builder (`geometry_rfc`, `builder_geometry`, `builder_corr`), the
+addressing predicate, W and `index_alpha` (`refSet_window`, `index_alpha_eq_rfc`), GB/P/G (`add_and_mul_formula`,
+`p_eq_P`, `fill_block_eq_G`, `fill_block_xor_eq_G`), the address blocks (`next_addresses_eq_rfc`,
+`input_block_eq_rfc`), one loop iteration and the segment loop under the invariant (`fill_segment_step_eq_rfc`,
+`fill_segment_loop_eq_rfc`), and — trivially, the two entry points have the same body — `entry_points_agree`.
+
+MISSING LINKS (plumbing, no arithmetic left in them):
+  (a) `fill_segment` prologue: the initial `SegState` satisfies `SegInv` at the starting index (input_block =
+      `addrInput … 0` by `input_block_eq_rfc`; the extra `next_addresses` of pass 0 / slice 0 by
+      `next_addresses_eq_rfc`; `curr_offset`, `prev_offset` by u32 arithmetic), and the Spec's loop over
+      `0..segLen` skips k = 0, 1 in pass 0 / slice 0, so that `fill_segment = Spec.fillSegment`;
+  (b) `process_init` = `Spec.firstBlocks` (from `hprime_block_init_eq_rfc`, writes in range);
+  (c) `process_fill` over `process_positions` = the three nested folds of `Spec.fillMemory`, carrying
+      `blocks.size = p·q` and `lane_length = q`;
+  (d) `process_final` = `Spec.finalBlock` (`0 xor B[0][q−1] = B[0][q−1]`);
+  (e) chaining (a)–(d) with `H0_layout`, `Memory::new` = m' zero blocks and `hprime_eq_rfc`.
+Until then the assembled equality is covered by the correspondence run only (code = Impl = Spec on the C11 grid). -/
+
+/-- `argon2::<T>` and `argon2_at` with a T-byte slice are the same computation (identical bodies) -/
+theorem entry_points_agree (T : Nat) (params : Impl.Argon2.Params) (pwd salt key aad : Bytes) :
+    Impl.Argon2.argon2 T params pwd salt key aad = Impl.Argon2.argon2_at params pwd salt key aad T := rfl
 
 end Cx.Props.C11
